@@ -20,7 +20,10 @@ RULE = (
     "after run k+1 are byte-identical to the files after run k; for F = all four the second run reports no "
     "create/fix/trim at all, and the rewritten module passes when re-executed with inline-snapshot inactive "
     "(asserting bodies). sessions: the same through real pytest sessions: the second all-four session exits 0, "
-    "its report shows no category section / diff panel and no file changes. non-trivial = the first run "
+    "its report shows no category section / diff panel and no file changes. sessions_bytecode: like an ordinary "
+    "user's machine - python's and pytest's bytecode caches survive between the sessions (they are validated by "
+    "mtime and size of the source) - with approved changes that keep the size of the file (1 -> 2, 'abc' -> 'abd'); "
+    "the second session and a plain run afterwards must be green. non-trivial = the first run "
     "changed the file and some value is not a plain int/short str."
 )
 ASSUMPTIONS = [
@@ -168,6 +171,59 @@ def check_sessions(case):
             "sample": {"before": src, "after": after1.decode()}}
 
 
+# ------------------------------------------------------------------- sessions with bytecode caches
+
+SAME_SIZE = [("1", "2"), ("7", "3"), ("'abc'", "'abd'"), ("[1, 2]", "[2, 1]"), ("{'k': 1}", "{'k': 5}"),
+             ("(1, 'x')", "(2, 'y')"), ("'1.2.3'", "'1.2.4'"), ("Point(x=1, y=2)", "Point(x=3, y=4)"), ("10", "99"),
+             ("True", "None")]
+
+
+@st.composite
+def _bytecode_case(draw, tier):
+    n = draw(st.sampled_from([1, 2, 3]))
+    pairs = [draw(st.sampled_from(SAME_SIZE)) for _ in range(n)]
+    return {"pairs": [list(p) for p in pairs], "flags": draw(st.sampled_from(["fix", "create,fix,trim,update", "fix,update"])),
+            "extra_ok": draw(st.booleans())}
+
+
+def check_bytecode(case):
+    """the approved change keeps the size of the file; python and pytest validate their caches by (mtime, size)"""
+    import os
+    import time
+
+    lines = ["from inline_snapshot import snapshot", "from vf_prelude import *", "", ""]
+    for i, (old, new) in enumerate(case["pairs"]):
+        lines += [f"def test_{i}():", f"    assert {new} == snapshot({old})", "", ""]
+    if case["extra_ok"]:
+        lines += ["def test_ok():", "    assert 5 == snapshot(5)", "", ""]
+    src = "\n".join(lines).rstrip("\n") + "\n"
+    d = drivers.make_project({"test_a.py": src})
+    try:
+        # the file was written an hour ago (caches of this very second cannot be told from stale ones otherwise)
+        old_time = time.time() - 3600
+        os.utime(d / "test_a.py", (old_time, old_time))
+        r0 = drivers.run_pytest(d, [], bytecode=True)          # fills the caches with the old constants
+        r1 = drivers.run_pytest(d, ["--inline-snapshot=" + case["flags"]], bytecode=True)
+        after1 = r1.files_after["test_a.py"]
+        if len(after1) != len(src.encode()):
+            raise RuntimeError(f"harness: the change is not size-neutral\n{after1.decode()}")
+        r2 = drivers.run_pytest(d, ["--inline-snapshot=" + case["flags"]], bytecode=True)
+        after2 = r2.files_after["test_a.py"]
+        if after2 != after1:
+            raise Violation("second-session-changes-file", f"--- after 1\n{after1.decode()}\n--- after 2\n{after2.decode()}")
+        if r2.returncode != 0:
+            raise Violation("second-session-not-green:bytecode-cache",
+                            f"flags={case['flags']} rc={r2.returncode}\n--- original\n{src}\n--- after 1\n{after1.decode()}\n{r2.stdout[-2000:]}")
+        r3 = drivers.run_pytest(d, [], bytecode=True)
+        if r3.returncode != 0:
+            raise Violation("plain-run-after-approval-fails:bytecode-cache",
+                            f"flags={case['flags']} rc={r3.returncode}\n--- after 1\n{after1.decode()}\n{r3.stdout[-2000:]}")
+    finally:
+        shutil.rmtree(d, ignore_errors=True)
+    return {"nontrivial": after1 != src.encode(), "classes": ["bytecode", case["flags"]],
+            "sample": {"before": src, "after": after1.decode()}}
+
+
 def _sess_strategy(tier):
     return gp.program_with_prev(tier, max_sites=3, styles=("assert",), max_leaves=6).map(lambda p: {"prog": p})
 
@@ -179,4 +235,6 @@ ARMS = [
            budget={"quick": 16, "thorough": 60000}),
     HypArm("sessions", _sess_strategy, check_sessions, signature=signature,
            budget={"quick": 32, "thorough": 600}, shrink=False),
+    HypArm("sessions_bytecode", _bytecode_case, check_bytecode, budget={"quick": 16, "thorough": 200}, shrink=False,
+           min_per_shard=2),
 ]
